@@ -545,3 +545,26 @@ _dec["dispatch"]["table"].update({
     "true|NoneV|NoneV": "dsw.spiderweb.decode#fast", "true|Mat|NoneV": "dsw.spiderweb.decode#fast-table",
     "true|NoneV|str": "dsw.spiderweb.decode#fast-vt", "true|Mat|str": "dsw.spiderweb.decode#fast-table-vt"})
 CONTRACTS = CONTRACTS + [decode_fast_variant(False, False), decode_fast_variant(True, False), decode_fast_variant(False, True), decode_fast_variant(True, True)]
+
+
+# ------------------------------------------------------------------------------------------------------------------ C10: the scan loop of repair_dna
+CONTRACTS = CONTRACTS + [dict(
+    name="dsw.spiderweb.repair_dna#scan", function="dsw.spiderweb.repair_dna", variant_of="dsw.spiderweb.repair_dna", n_loops=7,
+    # PARTIAL contract: the obligations end with the scan loop (loop 1).  The three bookkeeping lists (lists of strings / of arrays) are opaque:
+    # the statements that only update them are skipped, so exceptions those statements could raise are NOT covered here (bounded tier).
+    stop_after_loop=1, opaque=("split_sequences", "chuck_sequences", "index_markers"),
+    params={"dna_sequence": "dna", "accessor": "mat(ipow(4, observed_length), 4)", "start_index": "nat", "observed_length": "nat",
+            "vt_check": "none", "has_indel": "bool", "heap_size": "nat"},
+    requires={"graph": "observed_length >= 1 and is_accessor(accessor, observed_length)", "start": "start_index < ipow(4, observed_length)",
+              "one-window": "len(dna_sequence) >= observed_length"},
+    returns="none", ensures={}, raises={},
+    ghost={"entry": "ipow_mono(4, 0, observed_length)",
+           "after_assign:vertex_index": "sl = dna_sequence[location + 1: location + observed_length + 1]\n"
+                                        "pv_bound(A(codes(sl)), 0, P(sl, 0), P(sl, len(sl)), 4)\n"
+                                        "ipow_mono(4, len(sl), observed_length)"},
+    loops={1: dict(binds="location < len(dna_sequence)", invariant={
+        "cursor": "0 <= location",
+        "vertex-in-range": "0 <= vertex_index and vertex_index < ipow(4, observed_length)",
+        "queue-length": "len(index_queue) == len(dna_sequence)",
+    }, variant="len(dna_sequence) - location")},
+)]
